@@ -40,8 +40,8 @@ structure Batch where
 
 structure OutCall where
   nonce : Nat
-  sender : Addr
-  refund : Addr
+  sender : Nat
+  refund : Nat
   tokens : List (Nat × Nat)   -- (group, amount)
   fromMsg : Bool
   deriving Repr
@@ -128,7 +128,49 @@ def totalFees (txs : List PoolTx) : Nat := (txs.map (·.fee)).sum
 def bumpAll (f : Nat → Nat) (tokens : List (Nat × Nat)) : Nat → Nat :=
   tokens.foldl (fun acc t => bump acc t.1 t.2) f
 
-def step (cfg : Cfg) (s : State) : Op → Except Err State
+/-- first element satisfying `p`, and the list without it (the stores are keyed, so there is at most one) -/
+def extract {α : Type} (p : α → Bool) : List α → Option (α × List α)
+  | [] => none
+  | x :: xs => if p x then some (x, xs) else
+    match extract p xs with
+    | some (y, ys) => some (y, x :: ys)
+    | none => none
+
+/-- end of every operation: store the chain's records, bump the ghost counters -/
+def finish (s : State) (c : Nat) (cs : ChainSt) (dep wd : List (Nat × Nat)) : State :=
+  let s1 := setChain s c cs
+  { s1 with deposited := bumpAll s1.deposited dep, withdrawn := bumpAll s1.withdrawn wd }
+
+def Op.chain? : Op → Option Nat
+  | .deposit c .. | .send c .. | .xsend c .. | .cancel c .. | .incfee c .. | .batch c .. | .executed c ..
+  | .btimeout c .. | .bcout c .. | .bcresult c .. | .bctimeout c .. | .bcin c .. | .bcinfail c .. => some c
+  | _ => none
+
+def batchValue (b : Batch) : Nat := (b.txs.map (fun t => t.amount + t.fee)).sum
+
+/-- flow of `bridgeCallTransferTokens` (refund of a precompile-originated call goes back to the ERC-20) -/
+def refundToEvmFlow (cfg : Cfg) (refund : Nat) (tokens : List (Nat × Nat)) : Except Err (List Prim) :=
+  tokens.foldlM (fun acc t =>
+    match cfg.kind t.1 with
+    | some .fx => .ok acc
+    | some k => (match pairOk cfg t.1 with
+                 | some _ => .ok (acc ++ bridgeCallRefundToEvm k t.1 (U refund) t.2)
+                 | none => .error .disabled)
+    | none => .error .notFound) []
+
+def pairsFlow (cfg : Cfg) (tokens : List (Nat × Nat)) (f : Kind → Nat → Nat → List Prim) : Except Err (List Prim) :=
+  tokens.foldlM (fun acc t =>
+    match pairOk cfg t.1 with
+    | some k => .ok (acc ++ f k t.1 t.2)
+    | none => .error .disabled) []
+
+def refundCall (cfg : Cfg) (s : State) (c : Nat) (call : OutCall) (cs' : ChainSt) : Except Err State := do
+  let fl1 ← tokensFlow cfg c call.tokens (fun k g n => bridgeCallRefundCoin k g c (U call.refund) n)
+  let fl2 ← if call.fromMsg then pure [] else refundToEvmFlow cfg call.refund call.tokens
+  let s1 ← run s (fl1 ++ fl2)
+  pure (finish s1 c cs' [] [])
+
+def stepCore (cfg : Cfg) (s : State) : Op → Except Err State
   | .deposit c g u n toErc => do
     let some k := bridged cfg g c | .error .notFound
     let fl1 := bridgeTokenToBaseCoin k g c (U u) n
@@ -138,14 +180,14 @@ def step (cfg : Cfg) (s : State) : Op → Except Err State
          | none => .error .disabled)
       else pure fl1
     let s1 ← run s fl
-    pure { s1 with deposited := bump s1.deposited g n }
+    pure (finish s1 c (s1.chains c) [(g, n)] [])
   | .send c g u n fee => do
     -- `MsgSendToExternal.ValidateBasic` (run by the crosschain message router): amount and fee positive
     if n = 0 ∨ fee = 0 then .error .invalid else
     let some k := bridged cfg g c | .error .notFound
     let cs := s.chains c
     let s1 ← run s (baseCoinToBridgeToken k g c (U u) (n + fee))
-    pure (setChain s1 c { cs with pool := cs.pool ++ [⟨cs.nextTx, u, g, n, fee, false⟩], nextTx := cs.nextTx + 1 })
+    pure (finish s1 c { cs with pool := ⟨cs.nextTx, u, g, n, fee, false⟩ :: cs.pool, nextTx := cs.nextTx + 1 } [] [])
   | .xsend c g u n fee => do
     -- `CrossChainArgs.Validate`: amount positive
     if n = 0 then .error .invalid else
@@ -153,10 +195,10 @@ def step (cfg : Cfg) (s : State) : Op → Except Err State
     let some k := bridged cfg g c | .error .notFound
     let cs := s.chains c
     let s1 ← run s (precompileTokenIn kp g (U u) (n + fee) ++ baseCoinToBridgeToken k g c (U u) (n + fee))
-    pure (setChain s1 c { cs with pool := cs.pool ++ [⟨cs.nextTx, u, g, n, fee, true⟩], nextTx := cs.nextTx + 1 })
+    pure (finish s1 c { cs with pool := ⟨cs.nextTx, u, g, n, fee, true⟩ :: cs.pool, nextTx := cs.nextTx + 1 } [] [])
   | .cancel c id u => do
     let cs := s.chains c
-    let some tx := cs.pool.find? (·.id == id) | .error .notFound
+    let some (tx, rest) := extract (·.id == id) cs.pool | .error .notFound
     if tx.sender ≠ u then .error .invalid else
     let some k := bridged cfg tx.g c | .error .notFound
     let tot := tx.amount + tx.fee
@@ -167,15 +209,15 @@ def step (cfg : Cfg) (s : State) : Op → Except Err State
          | none => .error .disabled)
       else pure fl1
     let s1 ← run s fl
-    pure (setChain s1 c { cs with pool := cs.pool.filter (·.id != id) })
+    pure (finish s1 c { cs with pool := rest } [] [])
   | .incfee c id u g n => do
     if n = 0 then .error .invalid else
     let cs := s.chains c
-    let some tx := cs.pool.find? (·.id == id) | .error .notFound
+    let some (tx, rest) := extract (·.id == id) cs.pool | .error .notFound
     let some k := bridged cfg g c | .error .notFound
     if tx.g ≠ g then .error .invalid else
     let s1 ← run s (addBridgeFee k g c (U u) n)
-    pure (setChain s1 c { cs with pool := cs.pool.map (fun t => if t.id == id then { t with fee := t.fee + n } else t) })
+    pure (finish s1 c { cs with pool := { tx with fee := tx.fee + n } :: rest } [] [])
   | .batch c g baseFee => do
     let some _ := bridged cfg g c | .error .notFound
     let cs := s.chains c
@@ -185,91 +227,56 @@ def step (cfg : Cfg) (s : State) : Op → Except Err State
       (fun (acc : Nat × Nat) b => if b.nonce > acc.1 then (b.nonce, totalFees b.txs) else acc) (0, 0)).2
     if lastFees > totalFees sel then .error .invalid else
     if sel.isEmpty then .error .invalid else
-    pure (setChain s c { cs with
+    pure (finish s c { cs with
       pool := cs.pool.filter (fun t => !(t.g == g && decide (baseFee ≤ t.fee))),
-      batches := cs.batches ++ [⟨cs.nextBatch, g, sel⟩], nextBatch := cs.nextBatch + 1 })
+      batches := ⟨cs.nextBatch, g, sel⟩ :: cs.batches, nextBatch := cs.nextBatch + 1 } [] [])
   | .executed c g nonce => do
     let cs := s.chains c
-    let some b := cs.batches.find? (fun b => b.nonce == nonce && b.g == g) | .error .notFound
-    let older := cs.batches.filter (fun b' => b'.g == g && decide (b'.nonce < nonce))
-    let back := older.flatMap (·.txs)
-    let s1 := setChain s c { cs with
-      pool := cs.pool ++ back,
-      batches := cs.batches.filter (fun b' => !(b'.g == g && decide (b'.nonce ≤ nonce))) }
-    pure { s1 with withdrawn := bump s1.withdrawn g ((b.txs.map (fun t => t.amount + t.fee)).sum) }
+    let exec := cs.batches.filter (fun b => b.g == g && b.nonce == nonce)
+    if exec.isEmpty then .error .notFound else
+    let older := cs.batches.filter (fun b => b.g == g && decide (b.nonce < nonce))
+    pure (finish s c { cs with
+      pool := older.flatMap (·.txs) ++ cs.pool,
+      batches := cs.batches.filter (fun b => !(b.g == g && decide (b.nonce ≤ nonce))) }
+      [] (exec.map (fun b => (g, batchValue b))))
   | .btimeout c g nonce => do
     let cs := s.chains c
-    let some b := cs.batches.find? (fun b => b.nonce == nonce && b.g == g) | .error .notFound
-    pure (setChain s c { cs with
-      pool := cs.pool ++ b.txs,
-      batches := cs.batches.filter (fun b' => !(b'.g == g && b'.nonce == nonce)) })
+    let sel := cs.batches.filter (fun b => b.g == g && b.nonce == nonce)
+    if sel.isEmpty then .error .notFound else
+    pure (finish s c { cs with
+      pool := sel.flatMap (·.txs) ++ cs.pool,
+      batches := cs.batches.filter (fun b => !(b.g == g && b.nonce == nonce)) } [] [])
   | .bcout c u r tokens pre => do
-    if c ≥ nChains then .error .notFound else
     let cs := s.chains c
-    let flIn ← if pre then
-        tokens.foldlM (fun acc t =>
-          match pairOk cfg t.1 with
-          | some k => .ok (acc ++ convertERC20 k t.1 (U u) (U u) t.2)
-          | none => .error .disabled) []
-      else pure []
+    let flIn ← if pre then pairsFlow cfg tokens (fun k g n => convertERC20 k g (U u) (U u) n) else pure []
     let flOut ← tokensFlow cfg c tokens (fun k g n => baseCoinToBridgeToken k g c (U u) n)
     let s1 ← run s (flIn ++ flOut)
-    pure (setChain s1 c { cs with
-      calls := cs.calls ++ [⟨cs.nextCall, U u, U r, tokens, !pre⟩], nextCall := cs.nextCall + 1 })
+    pure (finish s1 c { cs with
+      calls := ⟨cs.nextCall, u, r, tokens, !pre⟩ :: cs.calls, nextCall := cs.nextCall + 1 } [] [])
   | .bcresult c nonce success => do
     let cs := s.chains c
-    let some call := cs.calls.find? (·.nonce == nonce) | .error .notFound
-    let cs' := { cs with calls := cs.calls.filter (·.nonce != nonce) }
-    if success then
-      let s1 := setChain s c cs'
-      pure { s1 with withdrawn := bumpAll s1.withdrawn call.tokens }
-    else do
-      let fl1 ← tokensFlow cfg c call.tokens (fun k g n => bridgeCallRefundCoin k g c call.refund n)
-      let fl2 ← if call.fromMsg then pure [] else
-        call.tokens.foldlM (fun acc t =>
-          match cfg.kind t.1 with
-          | some .fx => .ok acc
-          | some k => (match pairOk cfg t.1 with
-                       | some _ => .ok (acc ++ bridgeCallRefundToEvm k t.1 call.refund t.2)
-                       | none => .error .disabled)
-          | none => .error .notFound) []
-      let s1 ← run s (fl1 ++ fl2)
-      pure (setChain s1 c cs')
+    let some (call, rest) := extract (·.nonce == nonce) cs.calls | .error .notFound
+    let cs' := { cs with calls := rest }
+    if success then pure (finish s c cs' [] call.tokens)
+    else refundCall cfg s c call cs'
   | .bctimeout c nonce => do
     let cs := s.chains c
-    let some call := cs.calls.find? (·.nonce == nonce) | .error .notFound
-    let cs' := { cs with calls := cs.calls.filter (·.nonce != nonce) }
-    let fl1 ← tokensFlow cfg c call.tokens (fun k g n => bridgeCallRefundCoin k g c call.refund n)
-    let fl2 ← if call.fromMsg then pure [] else
-      call.tokens.foldlM (fun acc t =>
-        match cfg.kind t.1 with
-        | some .fx => .ok acc
-        | some k => (match pairOk cfg t.1 with
-                     | some _ => .ok (acc ++ bridgeCallRefundToEvm k t.1 call.refund t.2)
-                     | none => .error .disabled)
-        | none => .error .notFound) []
-    let s1 ← run s (fl1 ++ fl2)
-    pure (setChain s1 c cs')
+    let some (call, rest) := extract (·.nonce == nonce) cs.calls | .error .notFound
+    refundCall cfg s c call { cs with calls := rest }
   | .bcin c to tokens => do
-    if c ≥ nChains then .error .notFound else
     let fl1 ← tokensFlow cfg c tokens (fun k g n => bridgeTokenToBaseCoin k g c (U to) n)
-    let fl2 ← tokens.foldlM (fun acc t =>
-      match cfg.kind t.1, pairOk cfg t.1 with
-      | some k, some _ => .ok (acc ++ convertCoin k t.1 (U to) (U to) t.2)
-      | _, _ => .error .disabled) []
+    let fl2 ← pairsFlow cfg tokens (fun k g n => convertCoin k g (U to) (U to) n)
     let s1 ← run s (fl1 ++ fl2)
-    pure { s1 with deposited := bumpAll s1.deposited tokens }
+    pure (finish s1 c (s1.chains c) tokens [])
   | .bcinfail c r tokens => do
-    if c ≥ nChains then .error .notFound else
     let cs := s.chains c
     -- credit to the callee outside the cache context; the EVM part fails and is discarded; the refund is an
     -- outgoing bridge call built from the *refund address'* coins
     let fl1 ← tokensFlow cfg c tokens (fun k g n => bridgeTokenToBaseCoin k g c badContract n)
     let fl2 ← tokensFlow cfg c tokens (fun k g n => baseCoinToBridgeToken k g c (U r) n)
     let s1 ← run s (fl1 ++ fl2)
-    let s2 := setChain s1 c { cs with
-      calls := cs.calls ++ [⟨cs.nextCall, U r, U r, tokens, false⟩], nextCall := cs.nextCall + 1 }
-    pure { s2 with deposited := bumpAll s2.deposited tokens }
+    pure (finish s1 c { cs with
+      calls := ⟨cs.nextCall, r, r, tokens, false⟩ :: cs.calls, nextCall := cs.nextCall + 1 } tokens [])
   | .convertCoin g u r n => do
     let some k := pairOk cfg g | .error .disabled
     run s (convertCoin k g (U u) (U r) n)
@@ -284,6 +291,12 @@ def step (cfg : Cfg) (s : State) : Op → Except Err State
     let fl := convertDenom k g (U u) n src dst ++
       (if u = r then [] else [.send (dst.asset g) (U u) E n, .send (dst.asset g) E (U r) n])
     run s fl
+
+/-- operations on a chain outside `0 … nChains-1` are rejected (no such route) -/
+def step (cfg : Cfg) (s : State) (op : Op) : Except Err State :=
+  match op.chain? with
+  | some c => if c < nChains then stepCore cfg s op else .error .notFound
+  | none => stepCore cfg s op
 
 /-- total step: a failing operation leaves the state unchanged -/
 def stepT (cfg : Cfg) (s : State) (op : Op) : State :=
